@@ -61,12 +61,21 @@ inline std::string known_class(const std::string& bytes, const std::vector<std::
   return "";
 }
 
+// How much data do the headers declare?  Deliberately lenient (any magic, any non-NUL version byte means a second
+// header follows): this only decides whether an input belongs to the "needs more memory than the input is long" class.
 inline size_t declared_data_len(const std::string& b) {
-  zm::detail::Hdr h;
-  if (!zm::detail::read_hdr(b, 0, &h)) return 0;
-  size_t n = zm::detail::block_len(h, 4);
-  if (h.version >= 2 && b.size() >= 44 + n + 44) { zm::detail::Hdr h2; if (zm::detail::read_hdr(b, 44 + n, &h2)) n += zm::detail::block_len(h2, 8); }
-  return n;
+  auto counts = [&](size_t off, size_t tl, size_t* len) -> bool {
+    if (b.size() < off + 44) return false;
+    const unsigned char* p = (const unsigned char*)b.data() + off;
+    unsigned long long c[6];
+    for (int i = 0; i < 6; ++i) c[i] = zm::detail::be32(p + 20 + 4 * i);
+    *len = (size_t)(c[3] * (tl + 1) + c[4] * 6 + c[5] + c[2] * (tl + 4) + c[1] + c[0]);
+    return true;
+  };
+  size_t n1 = 0, n2 = 0;
+  if (!counts(0, 4, &n1)) return 0;
+  if (b.size() > 4 && b[4] != 0 && n1 < (1u << 24)) { if (counts(44 + n1, 8, &n2)) return std::max(n1, n2); }
+  return n1;
 }
 
 inline Outcome load_once(const std::string& bytes, const std::string& hint, const zm::TzFile& f) {
